@@ -14,3 +14,38 @@ package decoders
 //@ ensures [no-ammo] imp(n == 0, result1 == ErrNoAmmo)
 //@ ensures [error-keeps-counters] imp(result1 != nil, d.ammoNum == old(d.ammoNum) && d.passNum == old(d.passNum))
 //@ modifies d.ammoNum, d.passNum
+
+// ---------------------------------------------------------------- uripost
+
+//@ func (d *uripostDecoder) Scan
+//@ props C08 C13
+//@ ensures [limit] imp(d.config.Limit != 0 && old(d.ammoNum) >= d.config.Limit, result1 == ErrAmmoLimit && d.ammoNum == old(d.ammoNum) && d.passNum == old(d.passNum))
+//@ ensures [count] imp(result1 == nil, d.ammoNum == old(d.ammoNum) + 1 && result0 != nil)
+//@ ensures [error-keeps-count] imp(result1 != nil, d.ammoNum == old(d.ammoNum) && result0 == nil)
+//@ ensures [no-delivery-across-the-pass-bound] imp(result1 == nil && d.config.Passes != 0 && old(d.passNum) < d.config.Passes, d.passNum < d.config.Passes)
+//@ ensures [passes-count-up] d.passNum >= old(d.passNum) && d.passNum <= old(d.passNum) + 2
+//@ ensures [headers-forgotten-at-new-pass] imp(d.passNum > old(d.passNum) && result1 == nil, d.header != old(d.header))
+//@ loop 0 invariant d.ammoNum == old(d.ammoNum) && d.passNum == old(d.passNum) + i && i >= 0 && i <= 2
+//@ loop 0 invariant imp(d.config.Passes != 0 && old(d.passNum) < d.config.Passes, i == 0 || d.passNum < d.config.Passes)
+//@ loop 0 invariant imp(i > 0, d.header != old(d.header) && fresh(d.header)) && imp(i == 0, d.header == old(d.header))
+//@ loop 1 invariant d.ammoNum == old(d.ammoNum) && d.passNum == old(d.passNum) + i
+//@ loop 1 invariant imp(i > 0, d.header != old(d.header) && fresh(d.header)) && imp(i == 0, d.header == old(d.header))
+//@ modifies d.ammoNum, d.passNum, d.header, elems(d.header)
+
+//@ func (d *uripostDecoder) readBlock
+//@ props C13 C07 C09
+//@ env pooltype(d.pool, *ammo.Ammo)
+//@ ensures [error-yields-no-usable-ammo] imp(result1 != nil && calls(a.Setup) == 0, result0 == nil)
+//@ at call a.Setup assert [post-request] arg(method) == "POST" && arg(url) == result_of(uripost.DecodeURI, 1) && arg(tag) == result_of(uripost.DecodeURI, 2)
+//@ at call a.Setup assert [body-has-the-announced-size] len(arg(body)) == result_of(uripost.DecodeURI, 0)
+//@ at call uripost.DecodeURI assert [whole-trimmed-line] arg(uriString) == result_of(strings.TrimSpace, 0)
+//@ env [config-header-keys-are-canonical] forall_t(q, string, imp(has(d.decodedConfigHeaders, q), canon(q) == q))
+//@ env commonHeader != nil
+//@ loop 0 invariant [file-headers-have-priority] header != commonHeader && forall_t(q, string, imp(has(commonHeader, q), has(header, q) && header[q] == commonHeader[q]))
+//@ loop 1 invariant [distinct-maps] header != commonHeader
+//@ loop 1 invariant [key-not-in-file-headers] !has(commonHeader, k)
+//@ loop 1 invariant [key-canonical] canon(k) == k
+//@ loop 1 invariant [file-headers-have-priority] forall_t(q, string, imp(has(commonHeader, q), has(header, q) && header[q] == commonHeader[q]))
+//@ at call a.Setup assert [file-headers-have-priority] forall_t(q, string, imp(has(commonHeader, q), has(arg(header), q) && arg(header)[q] == commonHeader[q]))
+//@ at call commonHeader.Set assert [in-file-header-line] arg(a0) == result_of(util.DecodeHeader, 0) && arg(a1) == result_of(util.DecodeHeader, 1)
+//@ modifies elems(commonHeader)
